@@ -208,6 +208,23 @@ func init() {
 			},
 		}, false
 	}))
+	registerScenario(c19APIScenario("parpush-deviceauth", def, func(w *World) ([]func() *Obs, bool) {
+		// three independent random-byte consumers: PAR request_uri (no lock), device code (device strategy's lock), access token (core strategy's lock)
+		return []func() *Obs{
+			func() *Obs {
+				return w.PAR(url.Values{"client_id": {"A"}, "redirect_uri": {"https://A.example/cb"}, "state": {"state-12345678"}, "response_type": {"code"}, "scope": {"a"}}, w.AuthFor("A"))
+			},
+			func() *Obs { return w.DeviceAuth(url.Values{"client_id": {"B"}, "scope": {"a"}}, w.AuthFor("B")) },
+		}, false
+	}))
+	registerScenario(c19APIScenario("issue-deviceauth", def, func(w *World) ([]func() *Obs, bool) {
+		return []func() *Obs{
+			func() *Obs {
+				return w.Token(url.Values{"grant_type": {"client_credentials"}, "scope": {"a"}}, w.AuthFor("A"))
+			},
+			func() *Obs { return w.DeviceAuth(url.Values{"client_id": {"B"}, "scope": {"a"}}, w.AuthFor("B")) },
+		}, false
+	}))
 	registerScenario(Scenario{Name: "mint-mint-mint", Prop: "C19", Build: func() (*World, []func(), func(x *Exec) []Violation) {
 		w := NewWorld(def)
 		strat := w.HMAC
